@@ -222,7 +222,7 @@ def oracle_ring(case, out):
         # callback, Clear(), Consume(n) or the buffer's destructor), the counters count accepted / consumed elements
         if not m.group(5):
             return ('accessors-answer', summary)
-        mq = re.fullmatch(r'max:(\d+),empty:([01]),prod:(\d+),cons:(\d+),peek:\[([^\]]*)\],n:(\d+),pe:([01]),all:([01]),stop:(\d+)/([01])', m.group(5))
+        mq = re.fullmatch(r'max:(\d+),empty:([01]),prod:(\d+),cons:(\d+),peek:\[([^\]]*)\],n:(\d+),pe:([01]),all:([01]),stop:(\d+)/([01]),aup:([01])', m.group(5))
         if not mq:
             return ('accessors-answer', summary)
         peek = ids(mq.group(5))
@@ -237,6 +237,10 @@ def oracle_ring(case, out):
             return ('empty-and-range-size-agree-with-content', summary)
         if int(mq.group(9)) != min(2, len(peek)) or (mq.group(10) == '1') != (len(peek) < 2):
             return ('ForEach-stops-when-its-callback-says-so', summary)
+        if mq.group(11) != '1':
+            return ('a-slot-owns-its-element-and-refuses-a-second-one', summary)
+        if mq.group(11) != '1':
+            return ('a-slot-owns-its-element-and-refuses-a-second-one', summary)
     elif m.group(5):
         return ('summary', summary)
     allc = outl + rest
